@@ -150,3 +150,12 @@ MUTANTS += [
  ('C13', 'consume-copies-without-dirtying', BLOB, "            # We changed the blob state and have to make sure we join the\n            # transaction.\n            self._p_changed = True", "            pass"),
  ('C13', 'append-ignores-committed', BLOB, "                    if self._p_blob_committed:\n                        with open(self._p_blob_committed, 'rb') as fp:\n                            utils.cp(fp, result)", "                    if False:\n                        pass"),
 ]
+SER = 'serialize.py'
+MUTANTS += [
+ ('C14', 'referencesf-no-bare-oid', SER, "        if isinstance(reference, tuple):\n            oid = reference[0]\n        elif isinstance(reference, (bytes, str)):\n            oid = reference\n        else:\n            assert isinstance(reference, list)\n            continue\n\n        if not isinstance(oid, bytes):\n            assert isinstance(oid, str)\n            # this happens when all bytes in the oid are < 0x80\n            oid = oid.encode('ascii')\n\n        oids.append(oid)\n\n    return oids",
+  "        if isinstance(reference, tuple):\n            oid = reference[0]\n        else:\n            continue\n\n        oids.append(oid)\n\n    return oids"),
+ ('C14', 'referencesf-weak-as-strong', SER, "        else:\n            assert isinstance(reference, list)\n            continue\n\n        if not isinstance(oid, bytes):\n            assert isinstance(oid, str)\n            # this happens when all bytes in the oid are < 0x80\n            oid = oid.encode('ascii')\n\n        oids.append(oid)\n\n    return oids",
+  "        else:\n            assert isinstance(reference, list)\n            oid = reference[1][0]\n\n        if not isinstance(oid, bytes):\n            assert isinstance(oid, str)\n            # this happens when all bytes in the oid are < 0x80\n            oid = oid.encode('ascii')\n\n        oids.append(oid)\n\n    return oids"),
+ ('C14', 'load-persistent-bypasses-cache', SER, "        obj = self._cache.get(oid, None)\n        if obj is not None:\n            return obj\n\n        if isinstance(klass, tuple):", "        obj = None\n\n        if isinstance(klass, tuple):"),
+ ('C14', 'weakref-target-not-stored', SER, "                        oid = self._jar.new_oid()\n                        target._p_jar = self._jar\n                        target._p_oid = oid\n                        self._stack.append(target)", "                        oid = self._jar.new_oid()\n                        target._p_jar = self._jar\n                        target._p_oid = oid"),
+]
